@@ -16,22 +16,21 @@ variable {s : Simp} {o : Oracle} {cfg : Cfg} {env : Env} {code : List Nat} {st :
 
 def Shape (s : Simp) (o : Oracle) (cfg : Cfg) (code : List Nat) (st : SState) (out : StepOut) : Prop :=
   (∃ st' ext, out = contOut st' ∧ st'.path = st.path ++ ext ∧ st'.visits = st.visits) ∨
-  (∃ st0 h, out = haltOut st0 h ∧ st0.path = st.path) ∨
-  (∃ st0 r, out = stuckOut st0 r ∧ st0.path = st.path) ∨
+  (∃ e, out = { ends := [e] } ∧ e.st.path = st.path) ∨
   (∃ st0 target c nextPc, out = jumpi s o cfg code st0 target c nextPc ∧ st0.path = st.path ∧ st0.visits = st.visits)
 
 theorem Shape.cont {st' : SState} {ext : List B} (h : st'.path = st.path ++ ext) (hv : st'.visits = st.visits) :
     Shape s o cfg code st (contOut st') := Or.inl ⟨st', ext, rfl, h, hv⟩
 theorem Shape.cont0 {st' : SState} (h : st'.path = st.path) (hv : st'.visits = st.visits) :
     Shape s o cfg code st (contOut st') := Or.inl ⟨st', [], rfl, by simp [h], hv⟩
-theorem Shape.halt {st0 : SState} {h : Evm.Halt} (hp : st0.path = st.path) :
-    Shape s o cfg code st (haltOut st0 h) := Or.inr (Or.inl ⟨st0, h, rfl, hp⟩)
+theorem Shape.halt {st0 : SState} {h : Evm.Halt} {tag : Tag} {data : List T} (hp : st0.path = st.path) :
+    Shape s o cfg code st (haltOut st0 h tag data) := Or.inr (Or.inl ⟨_, rfl, hp⟩)
 theorem Shape.stuck {st0 : SState} {r : StuckReason} (hp : st0.path = st.path) :
-    Shape s o cfg code st (stuckOut st0 r) := Or.inr (Or.inr (Or.inl ⟨st0, r, rfl, hp⟩))
+    Shape s o cfg code st (stuckOut st0 r) := Or.inr (Or.inl ⟨_, rfl, hp⟩)
 theorem Shape.jumpi {st0 : SState} {target : Nat} {c : B} {nextPc : Nat} (hp : st0.path = st.path)
     (hv : st0.visits = st.visits) :
     Shape s o cfg code st (jumpi s o cfg code st0 target c nextPc) :=
-  Or.inr (Or.inr (Or.inr ⟨st0, target, c, nextPc, rfl, hp, hv⟩))
+  Or.inr (Or.inr ⟨st0, target, c, nextPc, rfl, hp, hv⟩)
 
 theorem Shape.contAux {st1 : SState} {aux : List B} (h : st1.path = st.path) (hv : st1.visits = st.visits) :
     Shape s o cfg code st (contOut (aux.foldl (addCond s) st1)) := by
@@ -107,18 +106,20 @@ theorem step_shape : Shape s o cfg code st (step s o cfg env code st) := by
     by_cases h : op = 0xf3 ∨ op = 0xfd
     · rw [if_pos h]; shape_branch
     rw [if_neg h]; clear h
+    by_cases h : op = 0x51 ∨ op = 0x52 ∨ op = 0x53
+    · rw [if_pos h]; shape_branch
+    rw [if_neg h]; clear h
     shape_leaf
 
 /-- paths only grow -/
 theorem step_next_path {st' : SState} (h : st' ∈ (step s o cfg env code st).next) :
     ∃ ext, st'.path = st.path ++ ext := by
   rcases step_shape (s := s) (o := o) (cfg := cfg) (env := env) (code := code) (st := st) with
-    ⟨st1, ext, e, hp, _⟩ | ⟨st0, hh, e, hp⟩ | ⟨st0, r, e, hp⟩ | ⟨st0, target, c, nextPc, e, hp, _⟩
+    ⟨st1, ext, e, hp, _⟩ | ⟨e0, e, hp⟩ | ⟨st0, target, c, nextPc, e, hp, _⟩
   · rw [e] at h
     simp only [contOut, List.mem_singleton] at h
     subst h; exact ⟨ext, hp⟩
-  · rw [e] at h; simp [haltOut] at h
-  · rw [e] at h; simp [stuckOut] at h
+  · rw [e] at h; simp at h
   · rw [e] at h
     rcases jumpi_next h with ⟨⟨pc', vis', rfl, _⟩, _⟩ | ⟨vis', rfl⟩
     · obtain ⟨ext, he⟩ := addCond_path_ext s { st0 with pc := pc', visits := vis' } (s.b c)
@@ -129,13 +130,10 @@ theorem step_next_path {st' : SState} (h : st' ∈ (step s o cfg env code st).ne
 /-- an end state carries the path of the state that ended -/
 theorem step_end_path {e : EndState} (h : e ∈ (step s o cfg env code st).ends) : e.st.path = st.path := by
   rcases step_shape (s := s) (o := o) (cfg := cfg) (env := env) (code := code) (st := st) with
-    ⟨st1, ext, e', hp, _⟩ | ⟨st0, hh, e', hp⟩ | ⟨st0, r, e', hp⟩ | ⟨st0, target, c, nextPc, e', hp, _⟩
+    ⟨st1, ext, e', hp, _⟩ | ⟨e0, e', hp⟩ | ⟨st0, target, c, nextPc, e', hp, _⟩
   · rw [e'] at h; simp [contOut] at h
   · rw [e'] at h
-    simp only [haltOut, List.mem_singleton] at h
-    subst h; exact hp
-  · rw [e'] at h
-    simp only [stuckOut, List.mem_singleton] at h
+    simp only [List.mem_singleton] at h
     subst h; exact hp
   · rw [e'] at h
     rw [(jumpi_ends h).2]; exact hp
@@ -146,10 +144,9 @@ theorem step_bounded_cases :
     ∃ st0 target c nextPc, st0.path = st.path ∧ st0.visits = st.visits ∧
       step s o cfg env code st = jumpi s o cfg code st0 target c nextPc := by
   rcases step_shape (s := s) (o := o) (cfg := cfg) (env := env) (code := code) (st := st) with
-    ⟨st1, ext, e', hp, _⟩ | ⟨st0, hh, e', hp⟩ | ⟨st0, r, e', hp⟩ | ⟨st0, target, c, nextPc, e', hp, hv⟩
+    ⟨st1, ext, e', hp, _⟩ | ⟨e0, e', hp⟩ | ⟨st0, target, c, nextPc, e', hp, hv⟩
   · left; rw [e']; rfl
-  · left; rw [e']; rfl
-  · left; rw [e']; rfl
+  · left; rw [e']
   · right; exact ⟨st0, target, c, nextPc, hp, hv, e'⟩
 
 /-- a JUMPI whose condition is a literal (a concrete word, or a literal Bool) is decided without `jumpi` -/
